@@ -159,6 +159,43 @@ def compare(ctx, obs, out, meta):
         ctx.disagree(meta, chi, chi_m, "chi-square")
 
 
+def batches(ctx, lines, keep):
+    """force-map style batches: several curves with the SAME number of points, the same model and settings and
+    the contact point fixed at the same value (as after tip-offset correction), but different abscissae, fitted
+    one after the other in one process - each curve's outputs must be consistent with its own data"""
+    rng = ctx.rng
+    for b in range(3 if ctx.tier == "quick" else 40):
+        mk = rng.choice(fitlib.MODELS[:4])
+        n_app, n_ret = rng.choice([(120, 60), (300, 100)])
+        wcp = rng.choice([2e-7, 5e-7, 1e-6])
+        k = rng.choice([1.0, 1.0, 0.7])
+        seg = rng.choice(["approach", "approach", "retract"])
+        for j in range(3):
+            truth = fitlib.truth_params(mk, rng, cp=0.0)
+            idnt = fitlib.synth_curve(mk, truth, rng, n_app=n_app, n_ret=n_ret, noise=rng.choice([1e-11, 5e-11]),
+                                      uniform=(j != 1), zmax=rng.choice([1.5e-6, 2e-6, 3e-6]),
+                                      depth=rng.choice([6e-7, 9e-7, 1.2e-6]), seed=7000 + 10 * b + j)
+            p0 = copy.deepcopy(truth)
+            p0["E"].set(value=truth["E"].value * rng.uniform(0.7, 1.4))
+            p0["contact_point"].set(value=0.0, vary=False)
+            kw = dict(model_key=mk, params_initial=p0, range_type="absolute", range_x=(0, 0), segment=seg,
+                      weight_cp=wcp, gcf_k=k, preprocessing=[])
+            meta = {"stream": "batch", "batch": b, "curve": j, "fit_model": mk, "range_type": "absolute",
+                    "gcf_k": k, "weight_cp": wcp, "segment": seg, "n": [n_app, n_ret],
+                    "contact_point": "fixed at 0"}
+            res, rec = fitlib.fit(idnt, **copy.deepcopy(kw))
+            if res != "ok":
+                ctx.case({**meta, "result": res}, bucket=["stream=batch", "result=" + res])
+                continue
+            obs = observe(idnt, kw, meta)
+            ctx.case({**meta, "success": obs["success"]}, nontrivial=json.dumps(meta, sort_keys=True),
+                     bucket=["stream=batch", f"success={obs['success']}"])
+            oracle(ctx, obs, kw, meta)
+            if obs["used"] is not None and len(obs["x"]) <= 700:
+                lines.append(model_line(obs, kw))
+                keep.append((obs, meta))
+
+
 def run(ctx):
     ctx.trusted = TRUST_COMMON + [
         "hand-written models lean/Nanite/Model/Residual.lean and Fitter.lean of compute_contact_point_weights/"
@@ -196,6 +233,7 @@ def run(ctx):
         if obs["used"] is not None and len(obs["x"]) <= 700:
             lines.append(model_line(obs, kw))
             keep.append((obs, meta))
+    batches(ctx, lines, keep)
     out = ctx.driver("Fit", lines) if lines else None
     if out is not None:
         for (obs, meta), o in zip(keep, out):
